@@ -39,12 +39,14 @@ def _events(args):
     elif kind == "prop":
         n = w.n
         trials_const = rng.random() < 0.4
-        nn = [rng.randint(1, 6) for _ in range(n)]
-        cst = rng.randint(3, 7)
-        ss = [rng.randint(0, (cst if trials_const else nn[i])) for i in range(n)]
+        big = rng.random() < 0.5
+        nn = [rng.randint(1, 6) * (60 if big else 1) for _ in range(n)]
+        cst = rng.randint(3, 7) * (70 if big else 1)
+        ss = [rng.randint(0, min(100, (cst if trials_const else nn[i]))) for i in range(n)]
         df = w.df.copy()
-        df["s"] = np.array(ss, dtype=np.int64)
-        df["nn"] = np.array(nn, dtype=np.int64)
+        # successes and trials may be stored with different (narrow) integer types
+        df["s"] = np.array(ss, dtype=rng.choice([np.int64, np.int8, np.uint8, np.int16, np.int32]))
+        df["nn"] = np.array(nn, dtype=rng.choice([np.int64, np.int16, np.int32]))
         cols = dict(w.cols)
         cols["s"] = {"kind": "num", "v": ss, "decl": []}
         cols["nn"] = {"kind": "num", "v": nn, "decl": []}
@@ -61,7 +63,8 @@ def _events(args):
             if rng.random() < 0.5:
                 df["s"] = df["s"].astype(float) + 0.5
             else:
-                df.loc[df.index[0], "s"] = 99
+                df["s"] = df["s"].astype(np.int64)
+                df.loc[df.index[0], "s"] = (cst if trials_const else int(df["nn"].iloc[0])) + 5
             w2.df = df
             st, dm = design.build(text, df)
             out.append(({"id": idx, "kind": "refuse", "status": "ok" if st == "ok" else type(dm).__name__, "tag": "prop_invalid"}, text))
